@@ -1,4 +1,5 @@
 import copy
+import re
 from collections.abc import Callable
 from typing import TYPE_CHECKING, Any, Optional, TypedDict, TypeGuard, Union, cast
 
@@ -16,6 +17,8 @@ if TYPE_CHECKING:
 
 
 empty_attrs: JSONDict = {}
+
+_SURROGATE = re.compile("[\ud800-\udfff]")
 
 
 class ChildInfo(TypedDict):
@@ -374,6 +377,14 @@ class TextNode(Node):
         if not content:
             msg = "Empty text nodes are not allowed"
             raise ValueError(msg)
+        if _SURROGATE.search(content):
+            # keep the str in one-to-one correspondence with its UTF-16 code units:
+            # halves of a pair that were cut apart and joined again become one
+            # character again, as they do in a JavaScript string
+            content = content.encode("utf-16-le", "surrogatepass").decode(
+                "utf-16-le",
+                "surrogatepass",
+            )
         self.text = content
 
     def __str__(self) -> str:
@@ -418,9 +429,9 @@ class TextNode(Node):
             to = text_length(self.text)
         if from_ == 0 and to == text_length(self.text):
             return self
-        substring = self.text.encode("utf-16-le")[2 * from_ : 2 * to].decode(
-            "utf-16-le",
-        )
+        substring = self.text.encode("utf-16-le", "surrogatepass")[
+            2 * from_ : 2 * to
+        ].decode("utf-16-le", "surrogatepass")
         return self.with_text(substring)
 
     def eq(self, other: Node) -> bool:
